@@ -1,1 +1,75 @@
-fn main(){}
+//! sim — deterministic simulator with fault injection for gfx-rs/rspirv.
+//!   sim <Cxx> <quick|thorough>     run a check (regressions, seeded batch, triage, evidence)
+//!   sim replay <file>              re-execute a replay file in a fresh process
+//!   sim selftest <what>            determinism / snapshot self-tests
+//! internal: sim worker …, sim replay-exec <file>
+
+mod core;
+mod guard;
+mod kinds;
+mod model;
+mod props;
+mod rng;
+mod runner;
+mod snapshot;
+
+use crate::core::{Property, Tier};
+use std::path::Path;
+
+macro_rules! dispatch {
+    ($id:expr, $f:ident, $($arg:expr),*) => {
+        match $id {
+            "C11" => runner::$f::<props::c11::C11>($($arg),*),
+            "C19" => runner::$f::<props::c19::C19>($($arg),*),
+            other => {
+                eprintln!("HARNESS-ERROR: unknown property {}", other);
+                std::process::exit(2)
+            }
+        }
+    };
+}
+
+fn main() {
+    let args: Vec<String> = std::env::args().collect();
+    if args.len() < 2 {
+        eprintln!("usage: sim <Cxx> <quick|thorough> | replay <file> | selftest <what>");
+        std::process::exit(2);
+    }
+    match args[1].as_str() {
+        "worker" => {
+            let tier = Tier::parse(&args[3]).expect("tier");
+            let seed: u64 = args[4].parse().expect("seed");
+            let start: u64 = args[5].parse().expect("start");
+            let end: u64 = args[6].parse().expect("end");
+            let total: u64 = args[7].parse().expect("total");
+            let prefix = args[8].clone();
+            dispatch!(args[2].as_str(), worker, tier, seed, start, end, total, &prefix)
+        }
+        "replay-exec" => {
+            let rf: runner::ReplayFile = match std::fs::read(&args[2]).map_err(|e| e.to_string()).and_then(|b| serde_json::from_slice(&b).map_err(|e| e.to_string())) {
+                Ok(r) => r,
+                Err(e) => {
+                    eprintln!("HARNESS-ERROR: {}", e);
+                    std::process::exit(2)
+                }
+            };
+            let code = dispatch!(rf.property.as_str(), replay_exec, &rf);
+            std::process::exit(code)
+        }
+        "replay" => std::process::exit(runner::replay_cmd(Path::new(&args[2]))),
+        id if id.starts_with('C') => {
+            let tier = args
+                .get(2)
+                .cloned()
+                .or_else(|| std::env::var("VERIF_TIER").ok())
+                .and_then(|t| Tier::parse(&t))
+                .unwrap_or(Tier::Quick);
+            let code = dispatch!(id, run_check, tier);
+            std::process::exit(code)
+        }
+        other => {
+            eprintln!("HARNESS-ERROR: unknown command {}", other);
+            std::process::exit(2)
+        }
+    }
+}
